@@ -723,7 +723,8 @@ package proxy
 // Session / unsigned (1.19.3+): denied or executed commands are consumed (at most an acknowledgement goes on, never the
 // command); forwarded or unknown-to-the-proxy commands go through forwardCommand with the event's command line.
 //@ func (*chatHandler).handleSessionCommand$4
-//@   props C22
+//@   props C22 C21
+//@   at-call dyn.consumeCommand#1 as deniedAck: assert [held-acknowledgements-travel-with-a-denied-command] newLastSeenMessages != nil ==> packet.LastSeenMessages.Offset == newLastSeenMessages.Offset
 //@   at-call Allowed as al: assert arg0 == e
 //@   at-call Command as cm: assert called(al) && res(al) && arg0 == e
 //@   at-call Forward as fw: assert called(al) && res(al) && arg0 == e
@@ -737,5 +738,46 @@ package proxy
 //@   ensures [not-a-proxy-command-is-sent-on-once] called(ex) && res(ex, 1) == nil && !res(ex, 0) ==> called(pass) && !called(ran)
 // Consuming never emits the command itself: nothing, or only the acknowledgement offset.
 //@ func (*chatHandler).handleSessionCommand$1
-//@   props C22
+//@   props C22 C21
+//@   ensures [the-acknowledgement-carries-the-packets-offset] dyntype(result, "chat.ChatAcknowledgement") ==> cast(result, *chat.ChatAcknowledgement).Offset == packet.LastSeenMessages.Offset && packet.LastSeenMessages.Offset != 0 && hasLastSeenMessages
 //@   ensures [consumed-commands-carry-no-command] isnil(result) || dyntype(result, "chat.ChatAcknowledgement")
+
+// ---- C21: secure chat acknowledgement conservation and task chaining -------------------------------------------------
+// delayed = acknowledgements received from the client and not yet passed to the backend (ghost value of the atomic cell;
+// all its mutators run inside the serialised task chain of the chat queue).
+// AccumulateAckCount(k): forwards nothing or at least a whole window (>= 20); what is forwarded plus what stays held is
+// exactly what was held plus k (nothing invented, nothing lost); what stays held is below 40.
+//@ func (*ChatState).AccumulateAckCount
+//@   props C21
+//@   requires ackCount >= 0 && ackCount <= 2147483000 && cs.delayedAckCount.@a32 >= 0 && cs.delayedAckCount.@a32 < 40
+//@   ensures [nothing-or-a-whole-window] result == 0 || result >= 20
+//@   ensures [conservation] int(cs.delayedAckCount.@a32) + result == int(old(cs.delayedAckCount.@a32)) + ackCount
+//@   ensures [lag-below-forty] cs.delayedAckCount.@a32 >= 0 && cs.delayedAckCount.@a32 < 40
+// UpdateFromMessage: a packet with a last-seen update takes ALL held acknowledgements with it (offset + held, held
+// becomes 0, same acknowledged set); a packet without one (unsigned command) neither carries nor flushes anything.
+//@ func (*ChatState).UpdateFromMessage
+//@   props C21
+//@   ensures [catches-up-completely] lastSeenMessages != nil ==> result != nil && result.Offset == old(lastSeenMessages.Offset) + int(old(cs.delayedAckCount.@a32)) && cs.delayedAckCount.@a32 == 0
+//@   ensures [no-update-no-flush] lastSeenMessages == nil ==> result == nil && cs.delayedAckCount.@a32 == old(cs.delayedAckCount.@a32)
+// An acknowledgement from the client is accumulated inside the task chain; an explicit acknowledgement goes to the
+// backend only for what AccumulateAckCount released, with exactly that offset.
+//@ func (*chatQueue).HandleAcknowledgement$1
+//@   props C21
+//@   ghostpre
+//@   at-call AccumulateAckCount as acc: assert arg0 == chatState && arg1 == offset
+//@   at-call writePacket as w: assert [explicit-ack-is-what-was-released] called(acc) && res(acc) > 0 && dyntype(arg1, "chat.ChatAcknowledgement") && cast(arg1, *chat.ChatAcknowledgement).Offset == res(acc)
+//@   ensures [nothing-released-nothing-sent] called(acc) && (res(acc) <= 0 ==> !called(w))
+// A client packet updates the chat state inside the task chain and builds its packet from the UPDATED last-seen state.
+//@ func (*chatQueue).QueuePacket$1
+//@   props C21
+//@   at-call UpdateFromMessage as upd: assert arg0 == chatState && arg2 == lastSeenMessages
+//@   at-call dyn.nextPacket as build: assert [built-from-the-updated-state] called(upd) && arg0 == res(upd)
+// Tasks are chained: each new task is composed after the current head, under the queue's lock, and becomes the head.
+//@ func (*chatQueue).queueTask
+//@   props C21
+//@   at-call ThenCompose as chain: assert [chained-after-the-previous-task] held(cq.internalLock) == wlocked && arg0 == cq.head
+//@   at-store head: assert [new-head-is-the-chained-task] held(cq.internalLock) == wlocked && called(chain) && value == res(chain)
+// Unsigned commands pass no last-seen update into the queue (they neither carry nor flush held acknowledgements).
+//@ func (*chatHandler).handleSessionCommand
+//@   props C21
+//@   at-call queueCommandResult as q: assert [unsigned-commands-pass-no-last-seen] streq(arg1, packet.Command) && (unsigned ==> arg3 == nil) && (!unsigned ==> arg3 != nil)
